@@ -188,6 +188,15 @@ fn execute(ctx: &Ctx, c: &Cfg) -> Run {
     ("piece-length", _) => vec!["torrent", "piece-length"].into_iter().map(String::from).collect(),
     ("completions", false) => vec!["completions", "--shell", "bash"].into_iter().map(String::from).collect(),
     ("completions", true) => vec!["completions"].into_iter().map(String::from).collect(),
+    ("help", _) => vec!["--help".to_string()],
+    ("help-subcommand", _) => [vec!["help", "torrent"], vec!["torrent", "create", "--help"], vec!["torrent", "help", "verify"]][(c.terminal as usize + 2 * (c.color == "always") as usize) % 3].iter().map(|s| s.to_string()).collect(),
+    ("version-short", _) => [vec!["-V"], vec!["torrent", "create", "-V"], vec!["torrent", "--version"]][(c.terminal as usize + 2 * (c.color == "never") as usize) % 3].iter().map(|s| s.to_string()).collect(),
+    ("create-lint-rejected", _) => {
+      // a refusal with a note about the lint that caused it: all of it belongs on standard error
+      let mut a = vec!["torrent", "create", "--input", "data", "--output", if c.terminal { "-" } else { "lint.torrent" }];
+      a.extend(match c.color { "auto" => vec!["--piece-length", "1000"], "always" => vec!["--piece-length", "8KiB"], _ => vec!["--private"] });
+      a.into_iter().map(String::from).collect()
+    }
     ("usage", _) => vec!["torrent", "create", "--no-such-flag"].into_iter().map(String::from).collect(),
     ("usage-no-subcommand", _) => vec![],
     ("usage-torrent-alone", _) => vec!["torrent".to_string()],
@@ -234,9 +243,12 @@ pub fn run(ctx: &Ctx) -> Report {
   report.exhaustive = ctx.replay.is_none();
   report.correspondences.push("C18.streams: stderr activity / stdout styling of the real binary = Imdlv.Streams.{outStream,errStream}; exit status = exitCode".into());
   let mut cfgs = Vec::new();
-  for scenario in ["create-stdout", "create-file", "create-open", "link", "link-open", "show-json", "show", "verify", "announce", "announce-no-peers", "announce-two-trackers", "piece-length", "completions", "usage", "usage-no-subcommand", "usage-torrent-alone", "usage-missing-value", "usage-bad-value", "usage-non-utf8-value", "version"] {
+  for scenario in ["create-stdout", "create-file", "create-open", "link", "link-open", "show-json", "show", "verify", "announce", "announce-no-peers", "announce-two-trackers", "piece-length", "completions", "usage", "usage-no-subcommand", "usage-torrent-alone", "usage-missing-value", "usage-bad-value", "usage-non-utf8-value", "version", "version-short", "help", "help-subcommand", "create-lint-rejected"] {
     for fail in [false, true] {
-      if fail && (matches!(scenario, "piece-length" | "version") || scenario.starts_with("usage")) {
+      if fail && (matches!(scenario, "piece-length" | "version" | "version-short" | "help" | "help-subcommand") || scenario.starts_with("usage")) {
+        continue;
+      }
+      if !fail && scenario == "create-lint-rejected" {
         continue;
       }
       for quiet in [false, true] {
@@ -312,6 +324,9 @@ pub fn run(ctx: &Ctx) -> Report {
       if c.scenario.starts_with("link") && (o.stdout_s().lines().count() != 1 || !o.stdout_s().starts_with("magnet:?")) {
         pf = pf.or(Some("link did not print exactly one magnet line".into()));
       }
+      if matches!(c.scenario, "help" | "help-subcommand" | "version" | "version-short") && (o.stdout.is_empty() || !o.stderr.is_empty()) {
+        pf = pf.or(Some(format!("help and version text belong on standard output: {} bytes there, {} on standard error", o.stdout.len(), o.stderr.len())));
+      }
       if c.quiet && !o.stderr.is_empty() {
         pf = pf.or(Some(format!("--quiet but standard error is not empty on success: {:?}", o.stderr_s())));
       }
@@ -356,7 +371,7 @@ pub fn run(ctx: &Ctx) -> Report {
     if c.scenario == "show" && success && c.terminal && (o.stdout.contains(&0x1b) != out_style) {
       md = Some(format!("`show --terminal` stdout escapes={}, model out.style={out_style}", o.stdout.contains(&0x1b)));
     }
-    let exit_ans = model.ask(&format!("C18 exit {}", if c.scenario.starts_with("usage") || (c.scenario == "completions" && c.fail) { "usage" } else if success { if c.scenario == "version" { "help" } else { "ok" } } else { "failed" }));
+    let exit_ans = model.ask(&format!("C18 exit {}", if c.scenario.starts_with("usage") || (c.scenario == "completions" && c.fail) { "usage" } else if success { if matches!(c.scenario, "version" | "version-short" | "help" | "help-subcommand") { "help" } else { "ok" } } else { "failed" }));
     if exit_ans != format!("ok {}", o.code.unwrap_or(-1)) {
       md = Some(format!("exit {:?}, model `{exit_ans}`", o.code));
     }
@@ -365,6 +380,33 @@ pub fn run(ctx: &Ctx) -> Report {
     }
   }
   report.model_requests = model.requests;
+  // ---- standard output that cannot take the bytes: the reader has gone away, or the device is full. A reported failure
+  // (exit status 1), not a silent success and not a death by signal.
+  if ctx.replay.is_none() || super::replay_cases(ctx).map(|rc| rc.iter().any(|v| v.get("stdout").is_some())).unwrap_or(false) {
+    for (what, redirect) in [("reader-gone", "| (exec 0<&-; sleep 0.4)"), ("device-full", "> devfull")] {
+      for sub in [vec!["torrent", "piece-length"], vec!["torrent", "link", "--input", "t.torrent"], vec!["torrent", "show", "--input", "t.torrent"], vec!["completions", "--shell", "zsh"]] {
+        let sb = Sandbox::new(&ctx.work, "c18p");
+        sb.write("t.torrent", &sample_torrent());
+        if what == "device-full" {
+          let ok = std::process::Command::new("mknod").arg("-m").arg("666").arg(sb.path("devfull")).args(["c", "1", "7"]).status().map(|s| s.success()).unwrap_or(false);
+          if !ok {
+            report.hit("skipped:mknod-not-permitted");
+            continue;
+          }
+        }
+        let script = format!("\"$0\" \"$@\" {redirect}; exit ${{PIPESTATUS[0]}}");
+        let o = std::process::Command::new("bash").arg("-c").arg(&script).arg(&ctx.imdl).args(&sub).current_dir(&sb.root).env("TERM", "dumb").output();
+        let Ok(o) = o else { report.hit("skipped:no-bash"); continue };
+        let case = json!({"stdout": what, "args": sub});
+        report.case(Some(fnv_str(&case.to_string())));
+        report.hit(&format!("stdout:{what}"));
+        // (bash reports a child killed by signal N as 128+N)
+        if o.status.code() != Some(1) {
+          report.fail("property", "stream-discipline", case, format!("standard output could not be written ({what}): exit status {:?}, expected a reported failure (1); stderr: {}", o.status.code(), String::from_utf8_lossy(&o.stderr).lines().last().unwrap_or("")));
+        }
+      }
+    }
+  }
   report
 }
 
